@@ -279,6 +279,14 @@ Qed.
 
 Lemma fc_read_errpipe fd : fc (read_errpipe fd).
 Proof. unfold read_errpipe. apply fc_bind; [apply fc_gets|]. intros nf. apply fc_read_retry. Qed.
+Lemma fc_waitpid_retry fuel pid : fc (waitpid_retry fuel pid).
+Proof.
+  induction fuel as [|f IH]; cbn [waitpid_retry]; [apply fc_crash|].
+  apply fc_bind; [apply fc_sys_waitpid|]. intros [r st]. destruct (r <? 0); [|apply fc_ret].
+  apply fc_bind; [apply fc_get_errno|]. intros e. destruct (e =? EINTR); [exact IH|apply fc_ret].
+Qed.
+Lemma fc_waitpid_child pid : fc (waitpid_child pid).
+Proof. unfold waitpid_child. apply fc_bind; [apply fc_gets|]. intros nf. apply fc_waitpid_retry. Qed.
 
 Lemma fc_sys_getfl fd : fc (sys_getfl fd).
 Proof. unfold sys_getfl. repeat fc_step. Qed.
@@ -607,7 +615,7 @@ Proof.
   assert (H8 : fq T (drop pwr (prd :: pwr :: own)) c w8).
   { destruct (0 <? (if q <? 0 then 0 else decode_int (runs_bytes rs))).
     - apply bind_inv in E8 as ([rw stw] & w8' & Ew & E8).
-      pose proof (F_neutral _ _ _ _ _ _ _ (fc_sys_waitpid _) H7 Ew) as Hw.
+      pose proof (F_neutral _ _ _ _ _ _ _ (fc_waitpid_child _) H7 Ew) as Hw.
       destruct (rw <? 0).
       + apply bind_inv in E8 as (e & w8'' & Eg & E8). apply gets_inv in Eg as [-> ->]. apply ret_inv in E8 as [_ ->]. exact Hw.
       + apply ret_inv in E8 as [_ ->]. exact Hw.
@@ -702,7 +710,7 @@ Proof.
   apply bind_inv in E0 as ([q rs] & w6 & E6 & E0). pose proof (F_neutral _ _ _ _ _ _ _ (fc_read_errpipe _) H5 E6) as H6.
   cbv beta iota zeta in E0.
   destruct (0 <? (if q <? 0 then 0 else decode_int (runs_bytes rs))).
-  - apply bind_inv in E0 as ([rw stw] & w7 & E7 & E0). pose proof (F_neutral _ _ _ _ _ _ _ (fc_sys_waitpid _) H6 E7) as H7.
+  - apply bind_inv in E0 as ([rw stw] & w7 & E7 & E0). pose proof (F_neutral _ _ _ _ _ _ _ (fc_waitpid_child _) H6 E7) as H7.
     cbv beta iota in E0. apply bind_inv in E0 as (r8 & w8 & E8 & E0).
     assert (H8 : fq T (drop pwr (prd :: pwr :: own)) c w8).
     { destruct (rw <? 0).
@@ -1777,7 +1785,7 @@ Proof.
   apply nk_bind; [apply nk_signal_mask|]. intros _. apply nk_bind; [apply nk_pc, pc_pipe_destroy|]. intros _.
   apply nk_bind; [apply nk_pc, pc_read_errpipe|]. intros [q rs]. cbv beta iota zeta.
   apply nk_bind.
-  - destruct (0 <? _); [|apply nk_ret]. apply nk_bind; [apply nk_pc, pc_sys_waitpid|]. intros [rw stw].
+  - destruct (0 <? _); [|apply nk_ret]. apply nk_bind; [apply nk_pc, pc_waitpid_child|]. intros [rw stw].
     destruct (rw <? 0); [|apply nk_ret]. apply nk_bind; [apply nk_pc, pc_get_errno|]. intros e. apply nk_ret.
   - intros r8. apply nk_bind; [apply nk_pc, pc_pipe_destroy|]. intros _. apply nk_ret.
 Qed.
@@ -1821,7 +1829,7 @@ Proof.
   cbv beta iota zeta in E0.
   destruct (0 <? (if q <? 0 then 0 else decode_int (runs_bytes rs))).
   - apply bind_inv in E0 as ([rw stw] & w7 & E7 & E0).
-    pose proof (nk_run _ _ _ _ (nk_pc _ (pc_sys_waitpid _)) ltac:(apply N6) E7) as N7. apply (nkpost_trans _ _ _ N7).
+    pose proof (nk_run _ _ _ _ (nk_pc _ (pc_waitpid_child _)) ltac:(apply N6) E7) as N7. apply (nkpost_trans _ _ _ N7).
     cbv beta iota in E0. apply bind_inv in E0 as (r8 & w8 & E8 & E0).
     assert (N8 : nkpost w7 w8).
     { destruct (rw <? 0).
